@@ -123,6 +123,9 @@ def check(ctx):
     R.c14_guards(ctx, prog)
     R.c14_closure(ctx, prog)
     R.c14_streams(ctx, prog)
+    # reads and writes on a closed or non-piped stream return the closed-pipe error, whatever buffer and size are given (C02.S2)
+    from . import c02
+    c02.api_rules(ctx, prog)
     R.c14_bounds(ctx, prog)
     R.exited_is_quiet(ctx, prog, "C14.L2q")
     R.c14_asserts(ctx)
